@@ -190,6 +190,12 @@ Theorem C14_tunnel_flag_pins :
 Proof. exact (conj reset_clears_src_ok (conj handshake_sets_src_ok (f_equal (@length _) parking_rule_src_ok))). Qed.
 Print Assumptions C14_tunnel_flag_pins.
 
+(* the status automaton's "reset only from the expected state" is resetToStandby's
+   CompareAndSwap guard in the current source *)
+Theorem C14_reset_guard_pin : relayneg_reset_guard_is_cas = true.
+Proof. exact reset_guard_src_ok. Qed.
+Print Assumptions C14_reset_guard_pin.
+
 (* ---- the defect: the end sign is looked for chunk by chunk ------------------------------ *)
 
 (* what the property wants: whatever the chunking of the client's stream *)
